@@ -2,6 +2,7 @@ package main
 
 import (
 	"crypto/sha256"
+	"sort"
 	"strings"
 
 	"aaverif/internal/ref"
@@ -168,6 +169,37 @@ func (e *Env) entropyCorpus(label string, emit func(EntCase)) {
 			boundaryEntropies(size, func(ent []byte, class string) {
 				emit(EntCase{ent, lang, class})
 			})
+			// 2b. sentences of extreme byte length: the longest and the shortest words of the list
+			for _, ent := range e.extremeEntropies(lang, size, label) {
+				emit(EntCase{ent, lang, "longest-or-shortest-words"})
+			}
+			// 2c. byte-value sweeps and runs of ones in the middle (carries, limb boundaries)
+			br := rng.New(e.Seed, label+"-bytes-"+itoa(lang)+"-"+itoa(size))
+			for p := 0; p < size; p++ {
+				for _, v := range []byte{0x00, 0x7f, 0x80, 0xff} {
+					b := br.Bytes(size)
+					b[p] = v
+					if p+1 < size && br.Intn(2) == 0 {
+						b[p+1] = v
+					}
+					emit(EntCase{b, lang, "byte-value-sweep"})
+				}
+			}
+			if lang == int(e.Seed%uint64(ref.NLang)) || e.Thorough() {
+				for _, runLen := range []int{2, 11, 12, 63, 64, 65} {
+					for start := 0; start+runLen <= size*8; start++ {
+						bits := make([]byte, size*8)
+						for i := start; i < start+runLen; i++ {
+							bits[i] = 1
+						}
+						emit(EntCase{packBits(bits), lang, "run-of-ones-in-the-middle"})
+						for i := range bits {
+							bits[i] ^= 1
+						}
+						emit(EntCase{packBits(bits), lang, "run-of-zeros-in-the-middle"})
+					}
+				}
+			}
 			// 3. random until coverage
 			r := rng.New(e.Seed, label+"-rand-"+itoa(lang)+"-"+itoa(size))
 			var cov csCoverage
@@ -204,3 +236,48 @@ func splitSentence(s string, lang int) []string {
 
 // isSpace is Unicode white space as the reference validator understands it.
 func fieldsUnicode(s string) []string { return strings.Fields(s) }
+
+// extremeIndices returns, for a language, the indices of its k longest and k
+// shortest words (by bytes).
+func (e *Env) extremeIndices(lang, k int) (longest, shortest []int) {
+	idx := make([]int, 2048)
+	for i := range idx {
+		idx[i] = i
+	}
+	l := e.Model.List[lang]
+	sort.SliceStable(idx, func(a, b int) bool { return len(l[idx[a]]) > len(l[idx[b]]) })
+	longest = append(longest, idx[:k]...)
+	shortest = append(shortest, idx[2048-k:]...)
+	return
+}
+
+// extremeEntropies returns entropies whose sentences consist of the longest
+// (resp. shortest) words of the list: the extremes of sentence byte length.
+func (e *Env) extremeEntropies(lang, size int, label string) [][]byte {
+	r := rng.New(e.Seed, label+"-extreme-"+itoa(lang)+"-"+itoa(size))
+	longest, shortest := e.extremeIndices(lang, 8)
+	n := size * 3 / 4
+	var out [][]byte
+	for rep := 0; rep < 6; rep++ {
+		for _, pool := range [][]int{longest[:1+rep%8], shortest[:1+rep%8], longest, shortest} {
+			first := make([]int, n-1)
+			for i := range first {
+				first[i] = pool[r.Intn(len(pool))]
+			}
+			// choose the free bits of the last word so that it is as long (short) as possible
+			best, bestLen := 0, -1
+			for top := 0; top < 1<<uint(11-size/4); top++ {
+				idx := ref.Indices(entropyFromIndices(size, first, top))
+				wl := len(e.Model.List[lang][idx[n-1]])
+				if &pool[0] == &shortest[0] {
+					wl = -wl
+				}
+				if bestLen == -1 || wl > bestLen {
+					best, bestLen = top, wl
+				}
+			}
+			out = append(out, entropyFromIndices(size, first, best))
+		}
+	}
+	return out
+}
